@@ -498,6 +498,9 @@ pub struct ForkCfg {
     pub case_timeout_s: u64,
     /// signature prefix for "process died" violations, e.g. "C01/abort"
     pub died_signature: String,
+    /// report memory exhaustion / watchdog deaths as violations too (properties about being
+    /// stopped by a limit); default false = resource outcome
+    pub resource_is_violation: bool,
 }
 
 enum ChildEnd {
@@ -552,6 +555,10 @@ where
         loop {
             std::thread::sleep(std::time::Duration::from_millis(250));
             let cur = unsafe { std::ptr::read_volatile(slot.add(1)) };
+            if cur == 0 {
+                // the shard does not report progress (no begin_case): nothing to watch
+                continue;
+            }
             if cur != last {
                 last = cur;
                 since = std::time::Instant::now();
@@ -698,7 +705,7 @@ where
                     }
                     (Some(k), _) => {
                         let desc = desc.unwrap_or_else(|| format!("case #{k} of shard {s}/{nshards}"));
-                        if resource {
+                        if resource && !cfg.resource_is_violation {
                             total.resource += 1;
                             total.count("resource_outcomes(memory or time cap)", 1);
                             if total.extra.len() < 40 {
